@@ -239,19 +239,21 @@ func doOp(fs hackpadfs.FS, o Op) fsad.Obs {
 	case "createexcl":
 		return fsad.Do(fs, "open", o.P, "", hackpadfs.FlagReadWrite|hackpadfs.FlagCreate|hackpadfs.FlagExclusive, 0644, nil, "")
 	case "append":
-		return doAppend(fs, o)
+		return doAppend(fs, o, hackpadfs.FlagWriteOnly|hackpadfs.FlagAppend)
+	case "createappend":
+		return doAppend(fs, o, hackpadfs.FlagWriteOnly|hackpadfs.FlagAppend|hackpadfs.FlagCreate)
 	}
 	return fsad.Do(fs, o.Name, o.P, o.Q, 0, 0644, o.Data, "")
 }
 
-func doAppend(fs hackpadfs.FS, o Op) (obs fsad.Obs) {
+func doAppend(fs hackpadfs.FS, o Op, flag int) (obs fsad.Obs) {
 	defer func() {
 		if r := recover(); r != nil {
 			obs.Panic = fmt.Sprint(r)
 			obs.Kind = "PANIC"
 		}
 	}()
-	f, err := hackpadfs.OpenFile(fs, o.P, hackpadfs.FlagWriteOnly|hackpadfs.FlagAppend, 0)
+	f, err := hackpadfs.OpenFile(fs, o.P, flag, 0644)
 	if err == nil {
 		_, err = hackpadfs.WriteFile(f, o.Data)
 		cerr := f.Close()
